@@ -524,6 +524,9 @@ def r2_mksetpv(ctx):
     for p in rets:
         a = app(p.ret, "idx")
         A, B = (a[0], a[1]) if a and len(a) == 2 else (None, None)
+        nz = app(B, "idx") if B is not None else None
+        if nz and const_of(nz[1]) == 0 and app(nz[0], "nonzero") and is_boolean(app(nz[0], "nonzero")[0]):
+            B = app(nz[0], "nonzero")[0]            # X[np.flatnonzero(M)] selects what X[M] selects, in the same order
         mA, mB = (_member(A) if A is not None else None), (_member(B) if B is not None else None)
         info.append((p, A, B, mA, mB))
         shape_ok = shape_ok and mA is not None and mB is not None
@@ -532,8 +535,11 @@ def r2_mksetpv(ctx):
         # a violation when the value returned is not a selection X[Y] of vectors at all, or a vector is recognisably not a membership test;
         # a selection of two boolean vectors computed in a way the rule does not know is an analysis error
         A, B = bad[1], bad[2]
+        def hides(x):
+            # a call of a local name (a closure, a function object handed around) may read anything of the enclosing function
+            return bool(find(x, lambda y: (head(y) or "").startswith("call:") and "." not in head(y)[5:] and head(y)[5:] not in _PLAIN_CALLS))
         kinds = ["none" if x is None else ("member" if _member(x) is not None else ("wrong" if _member_wrong(x) else
-                 ("odd" if depends_on_sym(x, args[0]) else "unrelated"))) for x in (A, B)]
+                 ("odd" if depends_on_sym(x, args[0]) or hides(x) else "unrelated"))) for x in (A, B)]
         if "odd" in kinds and not ({"none", "wrong", "unrelated"} & set(kinds)):
             ctx.error("mksetpv: how the membership vectors are computed is not recognised (rule knows (word & mask) != 0, .astype(bool) and the "
                       "ufunc spellings)", bad[0].ret_node, {"returned": _show(bad[0].ret), "regime": bad[0].describe()})
@@ -600,8 +606,9 @@ def r2_mksetpv(ctx):
     # refusal: every regime in which some DOF is in minor but not in major ends in the raise.  A test any(f(pvminor, pvmajor)) /
     # all(f(...)) is decided by the truth table of f over (in minor, in major): it is the containment test iff f == minor and not major
     refusal_ok, detail, undecidable = True, None, None
+    norm = {id(t[0]): (t[1], t[2]) for t in info}
     for p, rn, rj, _, _ in (roles if ok else []):
-        A, B = app(p.ret, "idx")
+        A, B = norm[id(p)]
         d = None                    # truth of `some DOF is in minor and not in major` on this path
         wrong, opaque = None, None
         for c, dd, node in p.atoms():
@@ -717,6 +724,7 @@ def _mask_fn(c, M, J):
     return build(c)
 
 
+_PLAIN_CALLS = {"mkusetmask", "int", "bool", "len", "abs", "str", "float", "isinstance", "min", "max", "sum", "any", "all", "list", "tuple", "range"}
 _INT_TYPES = {"int", "np.integer", "numbers.Integral", "np.int64", "np.int32", "np.uint32", "np.uint64", "np.signedinteger", "np.unsignedinteger", "Integral"}
 _BOOL_CMP = {"Gt": lambda x, y: x and not y, "Lt": lambda x, y: y and not x, "GtE": lambda x, y: x or not y, "LtE": lambda x, y: y or not x,
              "Eq": lambda x, y: x == y, "NotEq": lambda x, y: x != y}
@@ -795,6 +803,21 @@ def _clamp_kind(x, ss, arrays):
         a = app(c, "cmp:Eq")
         return bool(a) and ((same(a[0], ss) and is_size(a[1])) or (same(a[1], ss) and is_size(a[0])))
 
+    def at_size(val, here):
+        """what the cells whose insertion index == size receive: `val`, written over `here` (forms that equal the size on exactly those cells:
+        the index itself, the index selected by the == size mask) or over the size forms, or a constant"""
+        c = next((const_of(val - n) for n in list(here) + sizes if const_of(val - n) is not None), None)
+        if c in (-1, -2):
+            return "clamped"        # size-1, or size-2 (size-2 is -1 for one key: also the last one)
+        if c is not None and c >= 0:
+            return "raw"            # still >= size: out of range
+        k = const_of(val)
+        if k in (0, -1):
+            return "clamped"        # first / last position: in range whenever there is a key at all
+        if k is not None and k >= 1:
+            return "raw"            # out of range for a table of k keys or fewer
+        return None
+
     a = app(x, "upd")
     if a and same(a[0], ss):
         # which cells the store reaches: the insertion index lies in 0..size, so only `== size` (or `>= size`) matters
@@ -811,20 +834,7 @@ def _clamp_kind(x, ss, arrays):
             return None
         if not covers:
             return "raw"            # the == size cells are left as they are
-        # the cells where the index == size get  size + c  (or the constant k)
-        c = const_of(a[2] - F.fn("idx", ss, a[1]))
-        if c is None:
-            c = next((const_of(a[2] - n) for n in sizes if const_of(a[2] - n) is not None), None)
-        if c in (-1, -2):
-            return "clamped"        # size-1, or size-2 (size-2 is -1 for one key: also the last one)
-        if c is not None and c >= 0:
-            return "raw"            # still >= size: out of range
-        k = const_of(a[2])
-        if k in (0, -1):
-            return "clamped"        # first / last position: in range whenever there is a key at all
-        if k is not None and k >= 1:
-            return "raw"            # out of range for a table of k keys or fewer
-        return None
+        return at_size(a[2], [F.fn("idx", ss, a[1])])
     if not is_unknown(x) and not isinstance(x, tuple):
         # index - (index == size)  /  index - (index >= size): a boolean subtracted as 0 / 1
         canon, pol, _ = norm_atom(ss - x)
@@ -847,14 +857,17 @@ def _clamp_kind(x, ss, arrays):
         if same(c.get("a"), ss) and (hi is None or sym_of(hi) == "None" or is_size(hi)):
             return "raw"                # no upper bound below the size
     c = _is_call(x, ("where",), ["condition", "x", "y"])
-    if c and c.get("condition") is not None:
+    if c and c.get("condition") is not None and c.get("x") is not None and c.get("y") is not None:
+        # np.where(cond, x, y): the cells with index == size get one of the two values, all other cells must keep the index
         canon, pol, _ = norm_atom(c["condition"])
         yes, no = (c.get("x"), c.get("y")) if pol else (c.get("y"), c.get("x"))
-        if canon is not None and eq_size(canon) and is_last(yes) and same(no, ss):
-            return "clamped"
         g = app(canon, "cmp:Gt") if canon is not None else None
-        if g and is_size(g[0]) and same(g[1], ss) and same(yes, ss) and is_last(no):
-            return "clamped"
+        if canon is not None and eq_size(canon):
+            return at_size(yes, [ss]) if same(no, ss) else None           # == size cells: `yes`
+        if g and is_size(g[0]) and same(g[1], ss):
+            return at_size(no, [ss]) if same(yes, ss) else None           # size > index: the in-range cells keep it, the others get `no`
+        if g and same(g[0], ss) and is_size(g[1]):
+            return "raw" if same(no, ss) else None                        # index > size never happens: every cell gets `no`
     a = app(x, "op:Mod")
     if a and same(a[0], ss) and is_size(a[1]):
         return "clamped"            # wraps == size to 0: any in-range position will do, the re-check decides
@@ -1166,7 +1179,7 @@ def _r3_mkdofpv(ctx):
     uset = F.sym(fn.args.args[0].arg)
     nasset = fn.args.args[1].arg
     for p, L, D in rows:
-        H = strip(L.H)
+        H = strip(L.base)           # the table keys (for a search in a sorted copy: the keys the copy was made from)
         tab = find(H, lambda x: bool(app(x, "idx")) and head(app(x, "idx")[1]) == "tuple")
         if tab:
             U = app(tab[0], "idx")[0]
@@ -1184,6 +1197,8 @@ def _r3_mkdofpv(ctx):
             ids = [x for x in lv if sym_of(_is_call(x, ("get_level_values",), ["self", "level"])["level"]) == "'id'"]
             dfs = [x for x in lv if sym_of(_is_call(x, ("get_level_values",), ["self", "level"])["level"]) == "'dof'"]
             good = len(ids) == 1 and len(dfs) == 1 and kN is not None and same(H, ids[0] * kN + dfs[0])
+            if any(sym_of(_is_call(x, ("get_level_values",), ["self", "level"])["level"]) is None for x in lv):
+                enc_odd = enc_odd or "index levels addressed by position: " + _show(H)        # which level is the id depends on the table
             if not good and kN is not None and not (len(ids) == 1 and len(dfs) == 1 and const_of((H - dfs[0]) / ids[0]) is not None) \
                     and not pure(H, lambda a: _is_call(a, ("get_level_values",), ["self", "level"]) is not None):
                 enc_odd = enc_odd or "table keys: " + _show(H)
@@ -1473,6 +1488,32 @@ def _cross_rows(v):
         return _cross_rows(sc[1][0])
     if sc is not None and sc[0] in ("itertools.product", "product") and len(sc[1]) == 2 and not sc[2]:
         return sc[1][0], sc[1][1]
+    tc = _two_columns(v)
+    if tc is None:
+        return None
+    cols, nrows = tc
+    rep = _is_call(cols[0], ("repeat",), ["a", "repeats"])
+    til = _is_call(cols[1], ("tile",), ["A", "reps"])
+    if not rep or not til or rep.get("a") is None or til.get("A") is None or "axis" in rep:
+        return None
+    X, R = rep["a"], til["A"]
+    rng = _range_of(R)
+    nR = _size_forms([R]) + ([F.const(rng[1] - rng[0])] if rng is not None else [])
+    nX = _size_forms([X, strip(X)])
+    n_ok = any(same(rep.get("repeats"), n) for n in nR)
+    m_ok = any(same(til.get("reps"), n) for n in nX)
+    if nrows is not None and not any(same(nrows, a * b) for a in nX for b in nR):
+        return None                 # a buffer whose row count is not (number of ids) x (number of components)
+    return (X, R) if n_ok and m_ok else None
+
+
+def _two_columns(v):
+    """((column 0, column 1), row count or None) when v is a two-column array given by its columns:
+    np.column_stack((c0, c1)) / np.c_[c0, c1] / np.stack((c0, c1), axis=1) / np.vstack((c0, c1)).T / np.array([c0, c1]).T, or a buffer
+    np.empty / zeros / ... ((rows, 2)) both of whose columns were stored (`B[:, 0] = c0; B[:, 1] = c1`, either order, the last store of a
+    column counts; nothing of the initial content is left)"""
+    v = strip(v)
+    sc = split_call(v)
     cols = None
     if sc is not None and sc[0] in ("np.column_stack",) and len(sc[1]) == 1 and not sc[2]:
         cols = app(sc[1][0], "tuple")
@@ -1488,17 +1529,29 @@ def _cross_rows(v):
             cols = app(st[1][0], "tuple")
         elif app(t[0], "tuple"):
             cols = app(t[0], "tuple")           # np.array([rep, til]).T : the conversion of a list is the list
-    if not cols or len(cols) != 2:
+    if cols:
+        return (tuple(cols), None) if len(cols) == 2 else None
+    # column stores into a buffer
+    written = {}
+    x = v
+    while app(x, "upd"):
+        base, ix, val = app(x, "upd")
+        j = None
+        e = app(ix, "tuple")
+        if e and len(e) == 2 and (same(e[0], F.fn("slice", NONE, NONE, NONE)) or sym_of(e[0]) == "Ellipsis") and const_of(e[1]) is not None:
+            j = const_of(e[1])
+        if j is None:
+            return None
+        written.setdefault(int(j), val)          # walking from the last store backwards: the first one met is the one that counts
+        x = base
+    a = app(x, "alloc")
+    shp = app(a[1], "tuple") if a else None
+    if not written or not shp or len(shp) != 2 or const_of(shp[1]) != 2:
         return None
-    rep = _is_call(cols[0], ("repeat",), ["a", "repeats"])
-    til = _is_call(cols[1], ("tile",), ["A", "reps"])
-    if not rep or not til or rep.get("a") is None or til.get("A") is None or "axis" in rep:
+    c0, c1 = written.get(0, written.get(-2)), written.get(1, written.get(-1))
+    if c0 is None or c1 is None or len(written) != 2:
         return None
-    X, R = rep["a"], til["A"]
-    rng = _range_of(R)
-    n_ok = any(same(rep.get("repeats"), n) for n in _size_forms([R])) or (rng is not None and const_of(rep.get("repeats")) == rng[1] - rng[0])
-    m_ok = any(same(til.get("reps"), n) for n in _size_forms([X, strip(X)]))
-    return (X, R) if n_ok and m_ok else None
+    return (c0, c1), shp[0]
 
 
 def _cross_rows_wrong(v):
@@ -1514,12 +1567,48 @@ def _cross_rows_wrong(v):
         if g1 and g2 and len(g1) == 1 and len(g2) == 1 and e and len(e) == 2:
             return "the rows are not [outer item, inner item]: " + _show(a[0])
         return None
-    sc = split_call(v)
-    if sc is not None and sc[0] == "np.column_stack" and len(sc[1]) == 1 and not sc[2]:
-        cols = app(sc[1][0], "tuple")
-        if cols and len(cols) == 2 and _is_call(cols[0], ("tile",), ["A", "reps"]) and _is_call(cols[1], ("repeat",), ["a", "repeats"]):
+    tc = _two_columns(v)
+    if tc is not None:
+        cols = tc[0]
+        if _is_call(cols[0], ("tile",), ["A", "reps"]) and _is_call(cols[1], ("repeat",), ["a", "repeats"]):
             return "np.tile in the id column, np.repeat in the component column: component-major rows"
     return None
+
+
+_REARR = ("call:sorted", "call:set", "call:frozenset", "call:reversed", "call:np.unique", "call:np.sort", "call:dict.fromkeys", "call:np.flip",
+          "call:np.flipud", "call:.sort", "call:np.flip", "call:collections.Counter", "call:Counter", "call:heapq.nsmallest", "call:heapq.nlargest")
+_KEEP_ORDER = ("call:list", "call:tuple", "call:iter", "astype", "call:enumerate", "call:np.nditer", "call:.tolist", "call:.copy", "call:np.copy",
+               "call:str.strip", "call:.strip")
+
+
+def _iteration_source(it):
+    """what a loop / generator iterates over, looking through wrappers that hand the items on one by one in their order (list, tuple, iter,
+    enumerate, a conversion, map(f, X), X[:]):  ("source", X) - the items of X in the order X has them;  ("rearranged", X) - a sorted /
+    de-duplicated / reversed arrangement of X's items (sorted, set, reversed, np.unique, dict.fromkeys, X[::-1], ...);  ("unknown", value)"""
+    x = it
+    for _ in range(12):
+        x = strip(x)
+        h = head(x)
+        if h in _REARR:
+            return "rearranged", x
+        if h in _KEEP_ORDER and app(x, h):
+            x = app(x, h)[0]
+            continue
+        if h == "call:map" and len(app(x, h)) == 2:
+            x = app(x, h)[1]                   # map(f, X): one result per item of X, in X's order
+            continue
+        i = app(x, "idx")
+        sl = app(i[1], "slice") if i and len(i) == 2 else None
+        if sl and len(sl) == 3 and sym_of(sl[0]) == "None" and sym_of(sl[1]) == "None":
+            if sym_of(sl[2]) == "None" or const_of(sl[2]) == 1:
+                x = i[0]                       # X[:] / X[::1]
+                continue
+            if const_of(sl[2]) == -1:
+                return "rearranged", x         # X[::-1]
+        break
+    if head(x) is None and sym_of(x) is None:
+        return "unknown", x
+    return "source", x
 
 
 def r4_expanddof(ctx):
@@ -1542,8 +1631,8 @@ def r4_expanddof(ctx):
             k = "unknown"
         elif is_empty(v):
             k = "empty"
-        elif const_of(v) is not None:
-            k = "filled"                # np.zeros / np.ones of a shape that is not known to be empty
+        elif const_of(v) is not None or head(v) == "alloc":
+            k = "filled"                # np.zeros / np.ones / np.empty of a shape that is not known to be empty, nothing stored into it
         elif find(v, lambda x: head(x) == "call:str"):
             k = "digits"
         elif _cross_rows(v) is not None:
@@ -1564,8 +1653,6 @@ def r4_expanddof(ctx):
         return
     # "in the order requested": the expansion walks the request rows in their order and, per row, the characters of str(component) in their order -
     # not a sorted / de-duplicated / reversed rearrangement of either
-    REARR = ("call:sorted", "call:set", "call:frozenset", "call:reversed", "call:np.unique", "call:np.sort", "call:dict.fromkeys", "call:np.flip",
-             "call:np.flipud", "call:.sort")
     for p, k, v in digits:
         comps = find(v, lambda x: head(x) == "comp")
         if not comps:
@@ -1575,16 +1662,13 @@ def r4_expanddof(ctx):
         its = [g[0] for g in gens if g]
         verdict, shown = None, None
         for it in its:
-            x = it
-            while head(x) in ("call:list", "call:tuple", "call:iter", "astype") and app(x, head(x)):
-                x = app(x, head(x))[0]
-            x = strip(x)
-            if head(x) == "call:str" or sym_of(x) == dofp:
+            kind, x = _iteration_source(it)
+            if kind == "source" and (head(x) == "call:str" or sym_of(x) == dofp):
                 continue
-            if find(x, lambda y: head(y) in REARR):
+            if kind == "rearranged":
                 verdict, shown = False, it
                 break
-            if verdict is None and not (head(x) == "call:str" or sym_of(x) == dofp):
+            if verdict is None:
                 verdict, shown = "unknown", it
         if verdict == "unknown":
             ctx.error("expanddof: iteration order of the digit expansion not recognised", p.ret_node, _show(shown))
